@@ -165,7 +165,7 @@ theorem connected_midR {L cobs cacs armed pend unst Hd w st} (h : RelRp L cobs c
       exact connWorld_obs_lt Hp fnR feR fcR _ (liveFrom 0 cobs st.conns) st.conns.length (g.rootsLt _ hj)
   · refine
       { held := X.held, slot0 := X.slot0, slot1 := X.slot1, slot2 := X.slot2, slot3 := X.slot3
-        obsvH := X.obsvH, obsvS := X.obsvS
+        obsvS := X.obsvS
         cellG := ?_, cellB := ?_, cellN := ?_, sbLt := ?_, lenCa := by simp [X.lenCa]
         caNodup := ?_, caGe := ?_, caDisj := ?_ }
     · show ((connWorld Hp fnR feR fcR _ _ _).cells.set 8 _)[7]? = _
@@ -250,7 +250,7 @@ theorem onSubHookR_spec {L cobs cacs armed pend unst Hd w st} (h : RelRp L cobs 
       refine wp_cellWriteG h.held ?_
       have hm : st.conns.length = cobs.length := h.conns.lenC.symm
       refine connect_pre (H := Hp) (hid := 0) (fn := fnR) (fe := feR) (fc := fcR)
-        (hmap := liveFrom 0 cobs st.conns) (m := st.conns.length) h.held X.obsvH X.slot0 h.conns.ne
+        (hmap := liveFrom 0 cobs st.conns) (m := st.conns.length) h.held h.conns.obsv X.slot0 h.conns.ne
         (by show (w.cells.set 7 _)[0]? = _; rw [set_get_other _ (by decide)]; exact h.conns.cellO)
         (by show (w.cells.set 7 _)[1]? = _; rw [set_get_other _ (by decide)]; exact h.conns.cellS)
         (fun p hp => by have := (liveFrom_keys 0 cobs st.conns p hp).2; omega) ?_
